@@ -219,6 +219,10 @@ def signature(d, a=None, b=None):
         # they need an operand whose own elements meet away from common end points
         v = d.get("variant", "")
         sig["selfNoding"] = self_noding(a) if v in ("aa", "ae", "ea", "a") else (self_noding(a) or self_noding(b))
+    if sig["gc"] and sig["class"] == "pointset" and d["op"] == "uu":
+        # the recorded unary-union defect needs linework of one element running through another element (a line crossing a polygon ring):
+        # a collection whose elements do not meet each other is not that family.  (Variant gab = the collection {A, B}: not refined.)
+        sig["selfNoding"] = self_noding(a) if d.get("variant", "") == "a" else True
     if sig["gc"] or not near or sig["class"] != "pointset":
         sig["op"] = d["op"]
         if sig["class"] == "pointset" and not sig["gc"]:
